@@ -666,6 +666,7 @@ static int enumerate (FILE *out) {
   struct rng { long a, b; int alone; } *pend = 0; size_t npend = 0;
   for (;;) {
     while (active < njobs && !capped) {
+      if (!npend && next >= to) break;          /* nothing left to launch: a deadline that passes now caps nothing */
       if (deadline && now_ms () > deadline) { capped = 1; break; }
       long a, b; int alone = 0;
       if (npend) { a = pend[npend - 1].a; b = pend[npend - 1].b; alone = pend[npend - 1].alone; npend--; }
